@@ -220,6 +220,12 @@ static void run_sizes(void)
 {
     static cfg_t cfgs[1200];
     int nc = all_cfgs(cfgs, 1200, MO.thorough, 1);
+    /* word sizes that are not a whole number of bytes (libphazr is the one adapter that takes and reports any w): the
+     * word size in bytes is w / 8 rounded down, in every query and in encode alike */
+    if (liberasurecode_backend_available(EC_BACKEND_LIBPHAZR)) {
+        static const int sh[][4] = { {4, 2, 1, 20}, {3, 2, 1, 17}, {5, 3, 2, 36}, {2, 2, 1, 30} };
+        for (size_t i = 0; i < sizeof sh / sizeof sh[0] && nc < 1200; i++) cfgs[nc++] = (cfg_t){ EC_BACKEND_LIBPHAZR, sh[i][0], sh[i][1], sh[i][2], sh[i][3], CHKSUM_CRC32 };
+    }
     /* an instance that stays alive while all the others come and go: its answers never change */
     cfg_t anchor_c = { EC_BACKEND_LIBERASURECODE_RS_VAND, 4, 2, 2, 0, CHKSUM_CRC32 }; int anchor = -1;
     if (mon_case_all("anchor|create")) { anchor = lec_create(&anchor_c); if (anchor <= 0) mon_viol("C08", "create-failed", "anchor rc=%d", anchor); mon_end(); }
@@ -568,6 +574,28 @@ static void run_header(void)
                         }
                     }
                     free(fg); free(mis);
+                    mon_end();
+                }
+                /* (g) a list in which some headers are sealed with the standard CRC and others with the historical one (a stripe
+                 * partly rebuilt by another release or under the other setting of the switch): every header satisfies the
+                 * acceptance equation on its own, so decode and reconstruct accept the list and give the exact bytes, whatever
+                 * the order of the two kinds */
+                if (fi == 0 && cfg_tol(&c) >= 1 && c.be != EC_BACKEND_NULL && mon_case("%s|mixed-seal-kinds-in-one-list", x.ck)) {
+                    stripe_t *s = &x.st[mc.si]; int n2 = s->n;
+                    uint8_t *cp[64]; for (int i = 0; i < n2; i++) { cp[i] = malloc(s->flen); }
+                    for (int var = 0; var < 4; var++) {
+                        for (int i = 0; i < n2; i++) { memcpy(cp[i], s->frag[i], s->flen); int leg = var == 0 ? (i == 1) : var == 1 ? (i != 1) : var == 2 ? (i & 1) : (i >= n2 / 2); ref_hdr_reseal(cp[i], leg); }
+                        char *list[64]; int cnt = 0; for (int i = 1; i < n2; i++) list[cnt++] = (char *)cp[(var & 1) ? n2 - i : i];     /* fragment 0 is lost */
+                        int acc_all = 1; for (int i = 1; i < n2; i++) if (!ref_hdr_accept(cp[i])) acc_all = 0;
+                        char *out = NULL; uint64_t ol = 0; int rc = liberasurecode_decode(x.desc, list, cnt, s->flen, var == 2, &out, &ol);
+                        mon_count("evaluations", 2); mon_count("mixed_seal_lists", 1);
+                        if (acc_all && (rc != 0 || ol != s->len || (s->len && memcmp(out, s->data, s->len)))) mon_viol("C09", "valid-header-rejected", "variant %d: decode of a list whose headers carry both kinds of metadata checksum returned %d%s", var, rc, rc ? "" : " with wrong bytes");
+                        if (rc == 0) liberasurecode_decode_cleanup(x.desc, out);
+                        uint8_t *of = malloc(s->flen); rc = liberasurecode_reconstruct_fragment(x.desc, list, cnt, s->flen, 0, (char *)of);
+                        if (acc_all && (rc != 0 || memcmp(of + 80, s->frag[0] + 80, s->flen - 80))) mon_viol("C09", "valid-header-rejected", "variant %d: reconstruct from a list whose headers carry both kinds of metadata checksum returned %d%s", var, rc, rc ? "" : " with a wrong payload");
+                        free(of);
+                    }
+                    for (int i = 0; i < n2; i++) free(cp[i]);
                     mon_end();
                 }
                 /* (d) padding-only edits */
@@ -1031,6 +1059,56 @@ static int ref_stripe_bad(const inst_t *I, const uint8_t *f)
     return 0;
 }
 
+/* C12: "every fragment an instance has just encoded or reconstructed validates as good" also when several threads write
+ * through ONE instance at the same time, each with objects of its own length (so that what one call notes about sizes is not
+ * what the other needs): every thread validates each fragment it was just handed. */
+#include <pthread.h>
+typedef struct { int desc; cfg_t c; int id; long made, bad; int iters; } c12t_t;
+static void *c12_thread(void *v)
+{
+    c12t_t *a = v; int n = a->c.k + a->c.m; rng_t r; rng_seed(&r, MO.seed, 0xC12000 + (uint64_t)a->id);
+    uint64_t len = (uint64_t)a->c.k * (uint64_t)(16 + 40 * a->id) + (uint64_t)a->id * 3 + 1; uint8_t *data = malloc(len); rng_fill(&r, data, len);
+    for (int it = 0; it < a->iters; it++) {
+        char **ed = NULL, **ep = NULL; uint64_t fl = 0;
+        if (liberasurecode_encode(a->desc, (char *)data, len, &ed, &ep, &fl) != 0) { a->bad++; continue; }
+        for (int f = 0; f < n; f++) {
+            char *fr = f < a->c.k ? ed[f] : ep[f - a->c.k]; fragment_metadata_t md;
+            int rc = liberasurecode_get_fragment_metadata(fr, &md);
+            if (rc != 0 || md.chksum_mismatch || md.idx != (uint32_t)f || is_invalid_fragment(a->desc, fr)) a->bad++;
+            a->made++;
+        }
+        if (it % 8 == 0 && a->c.m >= 1) {      /* and one it has just rebuilt */
+            char *lst[40]; int cnt = 0; for (int f = 1; f < n; f++) lst[cnt++] = f < a->c.k ? ed[f] : ep[f - a->c.k];
+            char *of = malloc(fl); fragment_metadata_t md;
+            if (liberasurecode_reconstruct_fragment(a->desc, lst, cnt, fl, 0, of) != 0 || liberasurecode_get_fragment_metadata(of, &md) != 0 || md.chksum_mismatch || is_invalid_fragment(a->desc, of)) a->bad++;
+            a->made++; free(of);
+        }
+        liberasurecode_encode_cleanup(a->desc, ed, ep);
+    }
+    free(data);
+    return NULL;
+}
+static void c12_shared_instance_threads(void)
+{
+    noise_stop();
+    static const cfg_t shapes[] = { { EC_BACKEND_LIBERASURECODE_RS_VAND, 4, 2, 2, 0, CHKSUM_CRC32 }, { EC_BACKEND_FLAT_XOR_HD, 10, 5, 3, 0, CHKSUM_CRC32 }, { EC_BACKEND_LIBPHAZR, 4, 2, 1, 0, CHKSUM_CRC32 } };
+    for (size_t si = 0; si < sizeof shapes / sizeof shapes[0]; si++) {
+        if (!liberasurecode_backend_available((ec_backend_id_t)shapes[si].be)) continue;
+        if (!mon_case("%s|threads-writing-through-one-instance", be_name(shapes[si].be))) continue;
+        int d = lec_create(&shapes[si]);
+        if (d <= 0) { mon_viol("C12", "create-failed", "rc=%d", d); mon_end(); continue; }
+        enum { NT = 4 }; c12t_t a[NT]; pthread_t th[NT];
+        for (int t = 0; t < NT; t++) { a[t] = (c12t_t){ d, shapes[si], t, 0, 0, MO.thorough ? 3000 : 400 }; pthread_create(&th[t], NULL, c12_thread, &a[t]); }
+        long made = 0, bad = 0;
+        for (int t = 0; t < NT; t++) { pthread_join(th[t], NULL); made += a[t].made; bad += a[t].bad; }
+        mon_count("evaluations", made); mon_count("fragments_validated_by_concurrent_writers", made);
+        if (bad) mon_viol("C12", "fresh-fragment-invalid", "%ld of %ld fragments that %d threads had just encoded or rebuilt through one %s instance (each thread its own object length) did not validate", bad, made, NT, be_name(shapes[si].be));
+        liberasurecode_instance_destroy(d);
+        mon_distinct("nontrivial", mon_hash_u64((uint64_t)si, 0xC12));
+        mon_end();
+    }
+}
+
 static void run_validate(void)
 {
     /* a pool of instances (I) and stripes from instances (J) */
@@ -1171,6 +1249,7 @@ static void run_validate(void)
         }
     }
     for (int i = 0; i < np; i++) if (ok[i] || X[i].desc > 0) ctx_close(&X[i]);
+    c12_shared_instance_threads();
 }
 
 /* The entry points that take no descriptor (metadata query, header check, the exported historical CRC) asked about fragments
